@@ -167,6 +167,7 @@ def finish(ctx: Ctx, level: str, explanation: str, assumptions: List[str], trust
             "trusted_base": trusted,
             "exhaustive": bool(ctx.exhaustive),
             "known_findings_matched": [k.get("what") for _, k in listed],
+            "selftest": getattr(ctx, "selftest", None),
             "observations": ctx.observations,
             "notes": ctx.notes,
             "source_digest": ctx.repo.consulted_digest(),
